@@ -25,7 +25,7 @@ META = {
         "abelian_core.AbelianArray.einsum",
     ],
     "floors": {
-        "quick": {"evaluations": 3000, "distinct_nontrivial": 600, "tables": {"op/tensordot": 1500, "op/matmul": 200, "op/trace": 100, "op/einsum": 200, "mode/fused": 300, "mode/blockwise": 300, "noalign": 10, "op/self-contraction": 3000, "feature/partial-product-count-not-a-power-of-two": 1200}},
+        "quick": {"evaluations": 3000, "distinct_nontrivial": 600, "tables": {"op/tensordot": 1500, "op/matmul": 200, "op/trace": 100, "op/einsum": 200, "mode/fused": 300, "mode/blockwise": 300, "noalign": 10, "op/self-contraction": 3000, "feature/partial-product-count-not-a-power-of-two": 900}},
         "thorough": {"evaluations": 150000, "distinct_nontrivial": 30000, "tables": {"op/tensordot": 80000, "op/matmul": 10000, "op/trace": 5000, "op/einsum": 10000, "noalign": 500}},
     },
     "wall": {"quick": 900, "thorough": 1500},
